@@ -782,6 +782,27 @@ func ruleEOF1(c *Ctx) {
 								guarded = true
 							}
 						}
+						if _, isSel := ast.Unparen(be.X).(*ast.SelectorExpr); isSel {
+							// the depth may be kept in a field of a local struct: `prev.depth, prev.length = X.DepthLength()`
+							want := exprString(be.X)
+							InspectNoLit(f.Body(), func(q ast.Node) bool {
+								as, ok := q.(*ast.AssignStmt)
+								if !ok || len(as.Rhs) != 1 {
+									return true
+								}
+								for i, l := range as.Lhs {
+									if exprString(l) != want || (len(as.Lhs) > 1 && i != 0) {
+										continue
+									}
+									if call, ok := ast.Unparen(as.Rhs[0]).(*ast.CallExpr); ok {
+										if cf := Callee(info, call); cf != nil && (cf.Name() == "DepthLength" || cf.Name() == "Depth") {
+											guarded = true
+										}
+									}
+								}
+								return true
+							})
+						}
 						if v2 := IdentObj(info, be.X); v2 != nil {
 							for _, d := range defsOf(info, f.Body(), v2) {
 								if call, ok := ast.Unparen(d).(*ast.CallExpr); ok {
